@@ -13,7 +13,8 @@ COQ_CASE_TYPE = "case"
 COQ_RUN = "run_case"
 TABLE_CONSTRUCTS = ["agentset_select_fast", "agentset_select_limit", "agentset_select_keep", "agentset_select_loop",
                     "agentset_select_inplace", "agentset_select_skeleton", "agentset_sort_reverse", "agentset_sort_inplace",
-                    "agentset_shuffle", "agentset_get", "agentset_defaults", "agentset_glue"]
+                    "agentset_shuffle", "agentset_get", "agentset_defaults", "agentset_glue", "agentset_groupby_count",
+                    "agentset_groupby_agg"]
 RULE = ("histories = up to 10 agents of classes A(mesa.Agent), B(A), C(B), D(A) with small int attributes a0..a2 (ties; "
         "a1/a2 missing on some agents), an initial AgentSet (all / subset / permuted / with duplicates / empty) in slot 0 of a "
         "pool of 6 slots, then <= 25 operations select/sort/shuffle (in-place or copying into another slot), groupby (+ count/agg/do), "
